@@ -86,7 +86,7 @@ var (
 	reFunc    = regexp.MustCompile(`^func\s+(?:\(\s*(\*?\s*[A-Za-z_][A-Za-z0-9_]*)\s*\)\s*)?([A-Za-z_][A-Za-z0-9_]*)\b`)
 	reFuncLit = regexp.MustCompile(`^funclit\s+(?:\(\s*(\*?\s*[A-Za-z_][A-Za-z0-9_]*)\s*\)\s*\.\s*)?([A-Za-z_][A-Za-z0-9_]*)\s*#\s*(\d+)`)
 	reLoop    = regexp.MustCompile(`^loop\s+(\d+)\s+(invariant|unroll|decreases)\s*(.*)$`)
-	reOnCall  = regexp.MustCompile(`^on\s+call\s+(.+?)(?:#(\d+))?(?:\s+returning\s+(nil|err|ok))?\s*:\s*([A-Za-z_][A-Za-z0-9_]*)\s*=\s*(.*)$`)
+	reOnCall  = regexp.MustCompile(`^on\s+call\s+(.+?)(?:#(\d+))?(?:\s+returning\s+([A-Za-z_][A-Za-z0-9_.]*))?\s*:\s*([A-Za-z_][A-Za-z0-9_]*)\s*=\s*(.*)$`)
 	reOnAssign = regexp.MustCompile(`^on\s+assign\s+(.+?)\s*:\s*([A-Za-z_][A-Za-z0-9_]*)\s*=\s*(.*)$`)
 	reBefCall = regexp.MustCompile(`^before\s+call\s+(.+?)(?:#(\d+))?\s*:\s*assert\s+(.*)$`)
 	reBefRet  = regexp.MustCompile(`^before\s+return(?:\s+(nil|err))?\s*:\s*assert\s+(.*)$`)
